@@ -66,6 +66,7 @@ type vfSinks struct {
 	got   map[string][]string // probe id -> addresses (ip:port) that received it, in arrival order
 	udp   []*net.UDPConn
 	udpAt map[string]*net.UDPConn
+	lastRaw map[string][]byte
 	tcp   []net.Listener
 	addrs []string
 }
@@ -82,7 +83,18 @@ func (s *vfSinks) record(addr string, raw []byte) {
 	}
 	s.mu.Lock()
 	s.got[id] = append(s.got[id], addr)
+	if s.lastRaw == nil {
+		s.lastRaw = map[string][]byte{}
+	}
+	s.lastRaw[id] = append([]byte{}, raw...)
 	s.mu.Unlock()
+}
+
+// last returns the bytes of the message that arrived last under probe id.
+func (s *vfSinks) last(id string) []byte {
+	s.mu.Lock()
+	defer s.mu.Unlock()
+	return s.lastRaw[id]
 }
 
 func (s *vfSinks) listenUDP(addr string) error {
@@ -170,6 +182,12 @@ func (s *vfSinks) wait(id string, n int, bound time.Duration) []string {
 		}
 		time.Sleep(200 * time.Microsecond)
 	}
+}
+
+func (s *vfSinks) forgetRaw(id string) {
+	s.mu.Lock()
+	delete(s.lastRaw, id)
+	s.mu.Unlock()
 }
 
 func (s *vfSinks) forget(id string) {
